@@ -1,15 +1,287 @@
-"""C02  Circuits stay well formed under every history of public mutations
+"""C02  Circuits stay well formed under every history of public mutations.
 
-P: (deductive obligations for this property are added in vlib/props/C02.py as they are built)
-B: vlib/bounded/C02.py (bounded stand-in; never counted as proved)."""
+Rule R5 (class invariant): every public mutator maps WF states to WF states at normal exit, hence WF
+holds after every history. P: the users-index primitives against their contracts; _emplace_gate /
+_add_gate / add_gate / emplace_gate for gates of ARBITRARY arity (prefix-count loop invariant),
+remove_gate (incl. blocks), mark_as_output, set_outputs, delete_block — all on an arbitrary WF circuit.
+B: histories of all public mutators incl. connect_circuit family, replace_subcircuit, copy (vlib/bounded/C02.py)."""
+import z3
+
 from .. import env
-from .common import STD_TRUSTED, STD_ASSUME, run_bounded
+from ..pyvc.values import Sym, LabelSort, GTypeSort, GT, Obj, Unsupported, VList
+from ..pyvc.prove import Prover, Contract
+from ..pyvc import circuit_model as CM
+from .common import new_interp, finish_refuted, canary, STD_TRUSTED, STD_ASSUME, run_bounded
 
-LEVEL = 'exploration'
+LEVEL = 'other'
+CIRC = 'cirbo/core/circuit/circuit.py'
+I = z3.IntSort()
+
+
+def state_eq(ctx, A, Bst, fields):
+    """pointwise equality of two functional states on the listed components (skolem arguments)"""
+    g, u = ctx.fresh(LabelSort, 'ge'), ctx.fresh(LabelSort, 'ue')
+    i = ctx.fresh(I, 'ie')
+    m = {'dom': lambda S: S.dom(g), 'typ': lambda S: S.typ(g), 'nops': lambda S: S.nops(g), 'op': lambda S: S.op(g, i), 'opc': lambda S: S.opc(g, u),
+         'udom': lambda S: S.udom(g), 'cnt': lambda S: S.cnt(g, u), 'tot': lambda S: S.tot(g), 'in_n': lambda S: S.in_n, 'in_elem': lambda S: S.in_elem(i),
+         'in_cnt': lambda S: S.in_cnt(g), 'out_n': lambda S: S.out_n, 'out_elem': lambda S: S.out_elem(i), 'out_cnt': lambda S: S.out_cnt(g),
+         'b_member': lambda S: S.b_member, 'bg': lambda S: S.bg(g), 'bi': lambda S: S.bi(g), 'bo': lambda S: S.bo(g), 'size': lambda S: S.size}
+    return z3.And([m[f](A) == m[f](Bst) for f in fields])
+
+
+ALL = ['dom', 'typ', 'nops', 'op', 'opc', 'udom', 'cnt', 'tot', 'in_n', 'in_elem', 'in_cnt', 'out_n', 'out_elem', 'out_cnt', 'b_member', 'bg', 'bi', 'bo', 'size']
+GATES = ['dom', 'typ', 'nops', 'op', 'opc', 'size']
+USERS = ['udom', 'cnt', 'tot']
+IO = ['in_n', 'in_elem', 'in_cnt', 'out_n', 'out_elem', 'out_cnt']
+BLK = ['b_member', 'bg', 'bi', 'bo']
+
+
+class CircuitContract(Contract):
+    relpath = CIRC
+    wf_pre = True
+
+    def circuit(self, it, ctx):
+        CM.install_user_contracts(it)
+        CM.install_validation_loops(it)
+        c, h = CM.make_circuit(it, ctx, tag='c', wf=self.wf_pre)
+        l = z3.Const('L!rk', LabelSort)
+        ctx.assume(z3.ForAll([l], h.S.rank(l) >= 0))
+        return c, h
+
+    def wf_post(self, it, ctx, h, rank=None, which=None):
+        CM.sync_fields(it, h)
+        S1 = h.S.copy()
+        if rank is not None:
+            S1.rank = rank
+        for nm, f in CM.wf_goals(ctx, S1, which=which):
+            yield ('WF/' + nm, f)
+
+    def exc_name(self, exc):
+        return exc.cls.name if isinstance(exc, Obj) else repr(exc)
+
+
+class UserPrim(CircuitContract):
+    """the body of _add_user / _remove_user satisfies the contract used at every call site"""
+    wf_pre = False
+
+    def __init__(self, which):
+        self.which = which
+        self.qualname = 'Circuit.' + which
+        self.name = which + '/meets-contract'
+
+    def setup(self, it, ctx):
+        c, h = self.circuit(it, ctx)
+        g, u = z3.Consts('g u', LabelSort)
+        return [c, Sym(g), Sym(u)], {}, {'h': h, 'g': g, 'u': u, 'S0': h.S}
+
+    def post(self, it, ctx, result, st):
+        want = (CM.add_user_post if self.which == '_add_user' else CM.remove_user_post)(st['S0'], st['g'], st['u'])
+        yield ('users-index', state_eq(ctx, st['h'].S, want, USERS))
+        yield ('frame', state_eq(ctx, st['h'].S, st['S0'], GATES + IO + BLK))
+
+
+class AddGateLike(CircuitContract):
+    """_emplace_gate / _add_gate / emplace_gate / add_gate with a gate of arbitrary type and arbitrary arity"""
+
+    def __init__(self, fn, public):
+        self.fn, self.public = fn, public
+        self.qualname = 'Circuit.' + fn
+        self.name = fn + '/arbitrary-arity'
+
+    def setup(self, it, ctx):
+        c, h = self.circuit(it, ctx)
+        S0 = h.S
+        lab = z3.Const('lab', LabelSort)
+        ty = z3.Const('ty', GTypeSort)
+        ops = CM.AbsLabelSeq(ctx, tag='ops')
+        if not self.public:          # private forms: the caller has validated
+            i = z3.Int('i!pre')
+            ctx.assume(z3.Not(S0.dom(lab)))
+            ctx.assume(z3.ForAll([i], z3.Implies(z3.And(i >= 0, i < ops.n), S0.dom(ops.elem(i)))))
+        key = (CIRC + '::Circuit.' + ('_emplace_gate' if 'emplace' in self.fn else '_add_gate'), 1)
+        if 'emplace' in self.fn:
+            get = lambda it_, env: (env['operands'], lab)
+        else:
+            get = lambda it_, env: (env['new_gate'].fields['_operands'], lab)
+        it.loop_specs[key] = CM.UsersLoop(h, get, +1)
+        opsv = CM.as_ops(ops)
+        if 'emplace' in self.fn:
+            args = [c, Sym(lab), Sym(ty), opsv]
+        else:
+            gm = it.load_module('cirbo.core.circuit.gate')
+            args = [c, Obj(gm.env['Gate'], {'_label': Sym(lab), '_gate_type': Sym(ty), '_operands': opsv})]
+        return args, {}, {'h': h, 'S0': S0, 'lab': lab, 'ty': ty, 'ops': ops}
+
+    def post(self, it, ctx, result, st):
+        h, S0, lab, ty, ops = st['h'], st['S0'], st['lab'], st['ty'], st['ops']
+        # ghost rank: the new gate above all its operands
+        R = ctx.fresh(I, 'R')
+        i = z3.Int('i!rk')
+        ctx.assume(z3.ForAll([i], z3.Implies(z3.And(i >= 0, i < ops.n), R > S0.rank(ops.elem(i)))))
+        rank = lambda l: z3.If(l == lab, R, S0.rank(l))
+        yield from self.wf_post(it, ctx, h, rank=rank)
+        S1 = h.S
+        yield ('gate-stored', z3.And(S1.dom(lab), S1.typ(lab) == ty, S1.nops(lab) == ops.n))
+        l = ctx.fresh(LabelSort, 'lf')
+        x = ctx.fresh(LabelSort, 'xf')
+        j = ctx.fresh(I, 'jf')
+        yield ('frame/other-gates', z3.Implies(l != lab, z3.And(S1.dom(l) == S0.dom(l), S1.typ(l) == S0.typ(l), S1.nops(l) == S0.nops(l), S1.op(l, j) == S0.op(l, j), S1.opc(l, x) == S0.opc(l, x))))
+        yield ('frame/outputs-blocks', state_eq(ctx, S1, S0, ['out_n', 'out_elem', 'out_cnt'] + BLK))
+        if self.public:
+            yield ('validated/label-was-fresh', z3.Not(S0.dom(lab)))
+
+    def on_raise(self, it, ctx, exc, st):
+        n = self.exc_name(exc)
+        if self.public and n == 'CircuitValidationError':
+            S0, lab, ops = st['S0'], st['lab'], st['ops']
+            i = z3.Int('i!ex')
+            # raised only if the label exists or some operand is missing; nothing was mutated
+            yield ('raise/only-when-invalid', z3.Or(S0.dom(lab), z3.Exists([i], z3.And(i >= 0, i < ops.n, z3.Not(S0.dom(ops.elem(i)))))), {'raised': n})
+            yield ('raise/state-untouched', state_eq(ctx, st['h'].S, S0, ALL))
+        else:
+            yield ('no-raise', z3.BoolVal(False), {'raised': n, 'witness': 'raises-' + n})
+
+
+class RemoveGate(CircuitContract):
+    qualname = 'Circuit.remove_gate'
+    name = 'remove_gate'
+
+    def setup(self, it, ctx):
+        c, h = self.circuit(it, ctx)
+        S0 = h.S
+        lab = z3.Const('lab', LabelSort)
+        it.loop_specs[(CIRC + '::Circuit._remove_gate', 1)] = CM.UsersLoop(h, lambda it_, env: (env['cur_gate'].fields['_operands'], lab), -1)
+        # link of the two operand views of the removed gate (representation fact of its tuple) is supplied by UsersLoop
+        return [c, Sym(lab)], {}, {'h': h, 'S0': S0, 'lab': lab}
+
+    def post(self, it, ctx, result, st):
+        h, S0, lab = st['h'], st['S0'], st['lab']
+        yield from self.wf_post(it, ctx, h, rank=S0.rank)
+        S1 = h.S
+        yield ('removed', z3.And(z3.Not(S1.dom(lab)), S1.out_cnt(lab) == 0, S1.in_cnt(lab) == 0))
+        yield ('only-unused-gates', z3.And(S0.dom(lab), S0.tot(lab) == 0))
+        l = ctx.fresh(LabelSort, 'lf')
+        x = ctx.fresh(LabelSort, 'xf')
+        j = ctx.fresh(I, 'jf')
+        yield ('frame/other-gates', z3.Implies(l != lab, z3.And(S1.dom(l) == S0.dom(l), S1.typ(l) == S0.typ(l), S1.nops(l) == S0.nops(l), S1.op(l, j) == S0.op(l, j), S1.opc(l, x) == S0.opc(l, x))))
+
+    def on_raise(self, it, ctx, exc, st):
+        n = self.exc_name(exc)
+        S0, lab = st['S0'], st['lab']
+        if n == 'CircuitValidationError':
+            yield ('raise/absent-gate', z3.Not(S0.dom(lab)), {'raised': n})
+            yield ('raise/state-untouched', state_eq(ctx, st['h'].S, S0, ALL))
+        elif n == 'GateHasUsersError':
+            yield ('raise/gate-has-users', z3.And(S0.dom(lab), S0.tot(lab) > 0), {'raised': n})
+            yield ('raise/state-untouched', state_eq(ctx, st['h'].S, S0, ALL))
+        else:
+            yield ('no-raise', z3.BoolVal(False), {'raised': n, 'witness': 'raises-' + n})
+
+
+class MarkAsOutput(CircuitContract):
+    qualname = 'Circuit.mark_as_output'
+    name = 'mark_as_output'
+
+    def setup(self, it, ctx):
+        c, h = self.circuit(it, ctx)
+        lab = z3.Const('lab', LabelSort)
+        return [c, Sym(lab)], {}, {'h': h, 'S0': h.S, 'lab': lab}
+
+    def post(self, it, ctx, result, st):
+        h, S0, lab = st['h'], st['S0'], st['lab']
+        yield from self.wf_post(it, ctx, h, rank=S0.rank)
+        S1 = h.S
+        l = ctx.fresh(LabelSort, 'lf')
+        yield ('appended', z3.And(S1.out_n == S0.out_n + 1, S1.out_elem(S0.out_n) == lab, S1.out_cnt(l) == S0.out_cnt(l) + z3.If(l == lab, 1, 0)))
+        yield ('frame', state_eq(ctx, S1, S0, GATES + USERS + ['in_n', 'in_elem', 'in_cnt'] + BLK))
+
+    def on_raise(self, it, ctx, exc, st):
+        n = self.exc_name(exc)
+        if n == 'CircuitValidationError':
+            yield ('raise/absent-gate', z3.Not(st['S0'].dom(st['lab'])), {'raised': n})
+            yield ('raise/state-untouched', state_eq(ctx, st['h'].S, st['S0'], ALL))
+        else:
+            yield ('no-raise', z3.BoolVal(False), {'raised': n, 'witness': 'raises-' + n})
+
+
+class SetOutputs(CircuitContract):
+    qualname = 'Circuit.set_outputs'
+    name = 'set_outputs'
+
+    def setup(self, it, ctx):
+        c, h = self.circuit(it, ctx)
+        seq = CM.AbsLabelSeq(ctx, tag='outs')
+        return [c, seq], {}, {'h': h, 'S0': h.S, 'seq': seq}
+
+    def post(self, it, ctx, result, st):
+        h, S0, seq = st['h'], st['S0'], st['seq']
+        yield from self.wf_post(it, ctx, h, rank=S0.rank)
+        S1 = h.S
+        l = ctx.fresh(LabelSort, 'lf')
+        i = ctx.fresh(I, 'if')
+        yield ('outputs-are-argument', z3.And(S1.out_n == seq.n, S1.out_elem(i) == seq.elem(i), S1.out_cnt(l) == seq.count(l)))
+        yield ('frame', state_eq(ctx, S1, S0, GATES + USERS + ['in_n', 'in_elem', 'in_cnt'] + BLK))
+
+    def on_raise(self, it, ctx, exc, st):
+        n = self.exc_name(exc)
+        if n == 'CircuitValidationError':
+            seq, S0 = st['seq'], st['S0']
+            i = z3.Int('i!ex')
+            yield ('raise/some-label-absent', z3.Exists([i], z3.And(i >= 0, i < seq.n, z3.Not(S0.dom(seq.elem(i))))), {'raised': n})
+            yield ('raise/state-untouched', state_eq(ctx, st['h'].S, S0, ALL))
+        else:
+            yield ('no-raise', z3.BoolVal(False), {'raised': n, 'witness': 'raises-' + n})
+
+
+class DeleteBlock(CircuitContract):
+    qualname = 'Circuit.delete_block'
+    name = 'delete_block'
+
+    def setup(self, it, ctx):
+        c, h = self.circuit(it, ctx)
+        nm = z3.Const('bname', LabelSort)
+        return [c, Sym(nm)], {}, {'h': h, 'S0': h.S, 'nm': nm}
+
+    def post(self, it, ctx, result, st):
+        h, S0 = st['h'], st['S0']
+        yield from self.wf_post(it, ctx, h, rank=S0.rank)
+        yield ('frame', state_eq(ctx, h.S, S0, GATES + USERS + IO))
+
+    def on_raise(self, it, ctx, exc, st):
+        n = self.exc_name(exc)
+        if n == 'KeyError':
+            yield ('raise/state-untouched', state_eq(ctx, st['h'].S, st['S0'], ALL), {'raised': n})
+        else:
+            yield ('no-raise', z3.BoolVal(False), {'raised': n, 'witness': 'raises-' + n})
+
+
+def contracts():
+    return [UserPrim('_add_user'), UserPrim('_remove_user'),
+            AddGateLike('_emplace_gate', False), AddGateLike('_add_gate', False), AddGateLike('emplace_gate', True), AddGateLike('add_gate', True),
+            RemoveGate(), MarkAsOutput(), SetOutputs(), DeleteBlock()]
 
 
 def run(rep):
     quick = env.TIER != 'thorough'
-    rep.trusted_base = list(STD_TRUSTED)
+    rep.trusted_base = list(STD_TRUSTED) + ['abstract circuit model vlib/pyvc/circuit_model.py (python dict/list semantics of the five Circuit fields as count/positional views)',
+                                            'rule R5: an invariant established by every public mutator at normal exit holds after every history of such calls',
+                                            'background lemmas on tuples: count view = full prefix count; prefix counts are monotone']
+    for a in STD_ASSUME:
+        rep.assume(a)
+    rep.assume('P covers _add_user, _remove_user, _emplace_gate, _add_gate, emplace_gate, add_gate, remove_gate/_remove_gate, mark_as_output, set_outputs, delete_block; '
+               'the remaining mutators (rename_gate, set_inputs, add_inputs, replace_inputs, order_*, make_block*, connect_circuit family, replace_subcircuit, remove_block, into_bench loop, __copy__) are bounded-only here '
+               '(into_bench per gate: C14)')
+    it = new_interp()
+    pv = Prover(rep, it, 'C02')
+    for c in contracts():
+        it.loop_specs.clear()
+        it.contracts.clear()
+        pv.run_contract(c)
+    g, u = z3.Consts('g u', LabelSort)
+    f = z3.Function('cnt0', LabelSort, LabelSort, z3.IntSort())
+    canary(rep, pv, 'C02/canary/append-keeps-count', [], z3.If(z3.And(g == g, u == u), f(g, u) + 1, f(g, u)) == f(g, u))
+    refuted = pv.discharge(env.NPROC)
+    finish_refuted(rep, pv, refuted)
     run_bounded(rep, 'C02', quick)
-    rep.extra['explanation'] = 'bounded stand-in only in this build'
+    rep.extra['explanation'] = ('Class-invariant rule: each listed mutator is symbolically executed from the real source on an arbitrary well-formed circuit (arbitrary gate arity) '
+                                'and every WF clause of the post-state is discharged; histories over all public mutators are exercised by the bounded stand-in.')
